@@ -297,6 +297,17 @@ func (vc *VC) backEdge(fr *frame, ed *Edge) {
 		}
 		vc.oblige("invariant-step", fmt.Sprintf("loop%d.inv%s.step.b%d", l.ordinal, labelOr(inv.Label, k), ed.from.blk.Index), inv.Text, pos, ed.cond, t)
 	}
+	for k, sc := range lc.Steps {
+		ctx := &SpecCtx{vc: vc, lookup: vc.nodeLookup(fr, ed.from, nil, nil), st: ed.from.st, oldSt: fr.entrySt, oldLookup: func(name string) (Val, bool) { return vc.paramLookup(fr, name) }, pkg: fr.fn.Pkg.Pkg, fnName: fr.fn.Name(), fr: fr, loop: l}
+		t, err := ctx.EvalBool(sc.E)
+		if err != nil {
+			sc.Skipped++
+			vc.enc.notes[fmt.Sprintf("loop %d of %s: step clause %q does not apply to the back edge from block %d (%v)", l.ordinal, fr.fn.Name(), truncate(sc.Text, 40), ed.from.blk.Index, err)] = true
+			continue
+		}
+		sc.Applied++
+		vc.oblige("step", fmt.Sprintf("loop%d.step%s.b%d", l.ordinal, labelOr(sc.Label, k), ed.from.blk.Index), sc.Text, pos, ed.cond, t)
+	}
 	for i, mc := range lc.MustCalls {
 		ctx := &SpecCtx{vc: vc, lookup: vc.nodeLookup(fr, ed.from, nil, nil), st: ed.from.st, oldSt: fr.entrySt, oldLookup: func(name string) (Val, bool) { return vc.paramLookup(fr, name) }, pkg: fr.fn.Pkg.Pkg, fnName: fr.fn.Name(), fr: fr, loop: l}
 		w, err := ctx.EvalBool(mc.When)
@@ -493,6 +504,11 @@ func (vc *VC) resolveAtHeader(fr *frame, l *LoopInfo, hdr, envNode *Node, phiVal
 		}
 		return Val{}, false
 	}
+	// a local that lives in memory (an Alloc named after the variable, allocated before the loop): the name denotes
+	// the current content of the cell, not the value of some earlier definition
+	if v, ok := vc.allocLocal(fr, envNode, l.header, st, name); ok {
+		return v, true
+	}
 	// candidates via DebugRefs of objects with this name
 	type cand struct {
 		dr *ssa.DebugRef
@@ -541,6 +557,42 @@ func (vc *VC) resolveAtHeader(fr *frame, l *LoopInfo, hdr, envNode *Node, phiVal
 	}
 	if v, ok := vc.paramLookup(fr, name); ok {
 		return v, true
+	}
+	return Val{}, false
+}
+
+// allocLocal: the variable `name` is kept in a cell (ssa.Alloc with that comment) whose allocation dominates block b
+// and is bound at node n: its current content in state st. The innermost (latest dominating) cell wins.
+func (vc *VC) allocLocal(fr *frame, n *Node, b *ssa.BasicBlock, st *State, name string) (Val, bool) {
+	var best *ssa.Alloc
+	for _, blk := range fr.fn.Blocks {
+		if !(blk == b || blk.Dominates(b)) {
+			continue
+		}
+		for _, in := range blk.Instrs {
+			a, ok := in.(*ssa.Alloc)
+			if !ok || a.Comment != name {
+				continue
+			}
+			if _, bound := n.env[a]; !bound {
+				continue
+			}
+			if best == nil || best.Block().Dominates(a.Block()) {
+				best = a
+			}
+		}
+	}
+	if best == nil {
+		return Val{}, false
+	}
+	elem := best.Type().Underlying().(*types.Pointer).Elem()
+	if isCellType(elem) {
+		// evaluated lazily in whatever state the clause (or an enclosing old()/atiter()) selects
+		return Val{T: n.env[best].T, Typ: elem, Cell: true}, true
+	}
+	if _, isStruct := elem.Underlying().(*types.Struct); isStruct {
+		// a struct kept in memory: the name stands for the cell; field selections load from the selected state
+		return Val{T: n.env[best].T, Typ: best.Type()}, true
 	}
 	return Val{}, false
 }
